@@ -32,7 +32,7 @@ fn plans(types: &[Ty]) -> Vec<FuncPlan> {
     types
         .iter()
         .enumerate()
-        .map(|(k, t)| FuncPlan { name: format!("fx{k}"), ty: t.clone(), values: refabi::universe::values(t) })
+        .map(|(k, t)| FuncPlan::new(format!("fx{k}"), t.clone()))
         .collect()
 }
 
